@@ -405,6 +405,11 @@ def skeletons(nest_levels):
         ("update_from_join", ir.Update(tgt, (("c1", ir.Col("ta", "c1")),), (ir.FromGroup(A, (ir.Join("JOIN", B, ("on", ir.Cmp(ir.Col("ta", "k"), "=", ir.Col("y", "k")))),)),), None)),
         ("update_from_derived", ir.Update(tgt, (("c1", ir.Col("d1", "c1")),), (ir.FromGroup(ir.Derived(_sub_nested(1), "d1", True)),), None)),
         ("update_aliased_target", ir.Update(ir.T(None, "tgt", "t", True), (("c1", ir.Col("ta", "c1")),), (ir.FromGroup(A),), None)),
+        # UPDATE without FROM (every dialect has it): plain, with an aliased target (mysql-family grammars wrap an aliased target in a from_expression)
+        ("update_plain", ir.Update(tgt, (("c1", ir.Lit("1")),), (), None)),
+        ("update_plain_where", ir.Update(ir.T("s9", "tgt"), (("c1", ir.Col(None, "c2")),), (), ir.Cmp(ir.Col(None, "k"), "=", ir.Lit("1")))),
+        ("update_plain_aliased", ir.Update(ir.T(None, "tgt", "t", False), (("c1", ir.Lit("1")),), (), ir.Cmp(ir.Col("t", "k"), "=", ir.Lit("1")))),
+        ("update_plain_aliased_as", ir.Update(ir.T("s9", "tgt", "t", True), (("c1", ir.Col("t", "c2")),), (), None)),
         ("merge_table", ir.Merge(tgt, A, on, (("c1", ir.Col("ta", "c1")),), (("k", ir.Col("ta", "k")),))),
         ("merge_aliased", ir.Merge(ir.T("s9", "tgt", "t", True), ir.T(None, "ta", "s", True), ir.Cmp(ir.Col("t", "k"), "=", ir.Col("s", "k")), (("c1", ir.Col("s", "c1")),), ())),
         ("merge_subquery", ir.Merge(tgt, ir.Derived(_sub_nested(1), "s", True), ir.Cmp(ir.Col("tgt", "k"), "=", ir.Col("s", "k")), (), (("k", ir.Col("s", "c1")),))),
@@ -650,6 +655,8 @@ def _skeleton_worker(payload):
                 pick.append(["sparksql", "hive", "databricks"][(idx + ctx.seed) % 3])
             if any(f in ("kind:create_clone", "kind:create_or_replace_table") for f in feats):
                 pick.append(["snowflake", "bigquery"][(idx + ctx.seed) % 2])
+            if any(f.startswith("kind:update_plain") for f in feats):
+                pick.append(["mysql", "mariadb", "doris", "starrocks"][(idx + ctx.seed) % 4])
             if any(f == "kind:select_into" for f in feats):
                 pick.append(["postgres", "tsql"][(idx + ctx.seed) % 2])
         else:
